@@ -8,7 +8,9 @@ COQ_PROPS = ['Props/C09.v']
 COQ_IMPORTS = ['Prims', 'CaseLib', 'Memo']
 RULE = ('interleavings of (construct from token string | parse format | create Dtype (int and float scales) | pack | mutate or derive from an earlier result | set lsb0, bytealigned or mxfp_overflow) '
         'over more than 256 distinct keys per history so that every LRU cache evicts; each call is compared with the same call made after clearing every cache, under the option values in force at that '
-        'point; option reads during cached calls are logged and must be inside the statically computed read set. non-trivial = a call repeated after an option change or an eviction; distinct by history')
+        'point; objects (and Arrays) made from earlier objects by every constructor spelling and both then used, against the same program on plain strings / lists; calls that have nothing to do with the options '
+        '(printing, representations, copies, queries, searches with explicit arguments - accepted and refused) under every option configuration: the option values and the numbering-dependent method bindings must be '
+        'what the program set, and constructions that follow the options are compared with their documented outcome; option reads during cached calls are logged and must be inside the statically computed read set. non-trivial = a call repeated after an option change or an eviction; distinct by history')
 TRUSTED_BASE = ['translator tools/gen/callgraph.py (over-approximating static call graph; its read sets are validated dynamically on every run) and tools/gen/options.py']
 ASSUMPTIONS = ['functools.lru_cache returns a stored value only for an equal key (modelled as an association list with arbitrary eviction)']
 
@@ -62,6 +64,137 @@ def generate(out):
 TOKENS = ['uint:{n}={v}', 'int:{n}=-{v}', 'hex={h}', 'bin={b}', '0x{h}', '0b{b}', 'e4m3mxfp={f}', 'e5m2mxfp={f}', 'ue={v}', 'se=-{v}', 'uie={v}', 'float:32={f}', 'p4binary={f}', 'bool=1', 'pad:{n}']
 FORMATS = ['uint:{n}, hex:8', '2*(uint:{n}, bin:3)', '{n}*uint:5', '>{n}h', '<hb{n}B', 'bits:{n}, ue, se', 'int:{n}, pad:3, bytes:2', 'hex:{m}']
 
+# ---------------- objects made from earlier objects, then both used (the result of a construction never depends on, nor interferes with, an earlier result) ----------------
+SUBCLASSES = ['SubBits', 'SubBitArray', 'SubConstBitStream', 'SubBitStream']       # user subclasses: the same constructors serve them
+ALLCLS = CLASSES + SUBCLASSES
+_SUB = {}
+def cls_named(name):
+    """the four classes, or a trivial user subclass of one of them (made once per interpreter)"""
+    if not name.startswith('Sub'): return cls_of(name)
+    if name not in _SUB: _SUB[name] = type(name, (cls_of(name[3:]),), {})
+    return _SUB[name]
+def is_stream(name): return name.endswith('Stream')
+def is_mutable(name): return name in ('BitArray', 'BitStream', 'SubBitArray', 'SubBitStream')
+
+CTORS = ['plain', 'plain', 'plain', 'pos', 'pos', 'length', 'offset', 'lenoff', 'bits_kw', 'bits_kw_pos', 'bits_kw_len', 'copy', 'copycopy', 'slice', 'add_empty', 'radd_empty', 'join', 'pack', 'append_to_empty', 'iadd_to_empty', 'setslice']
+SRC_ROUTES = ['auto', 'auto', 'auto', 'bin', 'bin', 'bytes', 'iter', 'bitarray', 'slice', 'copy', 'join', 'bytesio', 'file', 'ctor', 'add', 'read']
+ACTS = ['read', 'read', 'setpos', 'append', 'prepend', 'invert', 'clear', 'delhead', 'setall', 'reverse', 'iadd', 'again', 'again', 'rebuild', 'chain', 'look']
+
+def gen_from_obj(rng, same_class=None):
+    n = rng.choice([0, 1, 7, 8, 9, 16, 17, 32, 33, 64, 128]) if rng.random() < 0.8 else rng.randrange(0, 200)
+    src = rng.choice(ALLCLS if rng.random() < 0.3 else CLASSES)
+    same = rng.random() < 0.6 if same_class is None else same_class
+    dst = src if same else rng.choice(ALLCLS if rng.random() < 0.3 else CLASSES)
+    route = rng.choice(SRC_ROUTES)
+    if src in SUBCLASSES and route not in ('auto', 'bin', 'ctor', 'add', 'read'): route = rng.choice(['auto', 'bin'])
+    st = {'op': 'from_obj', 'src_cls': src, 'dst_cls': dst, 'bits': rand_bits(rng, n), 'route': route, 'src_pos': rng.choice([0, 1, 4, 8, 12, n // 2, n, n]), 'seek': rng.choice(['read', 'pos']),
+          'ctor': rng.choice(CTORS), 'p': rng.choice([0, 1, 4, n // 2, n, n + 1]), 'length': rng.choice([0, 3, n]), 'offset': rng.choice([0, 2]), 'use': []}
+    for _ in range(rng.randrange(2, 8)):
+        a = {'on': rng.choice(['src', 'new']), 'do': rng.choice(ACTS), 'k': rng.choice([0, 1, 3, 4, 8, 20, 1000])}
+        if a['do'] in ('append', 'prepend', 'iadd'): a['bits'] = rand_bits(rng, rng.choice([0, 1, 3, 8]))
+        st['use'].append(a)
+    return st
+
+def gen_from_obj_sweep(rng):
+    """an object of each class made from an object of the same class, by each plain route, the source standing inside its data; then both are used"""
+    out = []
+    for cls in CLASSES + [rng.choice(SUBCLASSES)]:
+        for ctor in ('plain', 'pos', 'copy', 'bits_kw', 'slice', 'add_empty'):
+            st = gen_from_obj(rng, same_class=True)
+            n = rng.choice([8, 16, 33, 64])
+            st.update(src_cls=cls, dst_cls=cls, bits=rand_bits(rng, n), route=rng.choice(['auto', 'bin']), src_pos=rng.choice([1, 4, n // 2, n]), seek=rng.choice(['read', 'pos']), ctor=ctor, p=rng.choice([0, 1, n // 2, n]))
+            st['use'] = [{'on': 'new', 'do': 'read', 'k': 3}, {'on': 'src', 'do': 'read', 'k': 2}, {'on': 'src', 'do': 'again', 'k': 0}, {'on': 'new', 'do': 'append', 'k': 0, 'bits': '101'},
+                         {'on': 'src', 'do': 'invert', 'k': 0}, {'on': 'src', 'do': 'rebuild', 'k': 0}, {'on': 'new', 'do': 'setpos', 'k': 1}, {'on': 'src', 'do': 'look', 'k': 0}]
+            rng.shuffle(st['use'])
+            out.append(st)
+    return out
+
+# ---------------- Arrays made from earlier Arrays, then both used ----------------
+FA_DTYPES = {'uint8': [0, 1, 7, 100, 200, 255], 'int16': [-300, -1, 0, 5, 30000], 'float32': [0.5, -2.0, 1024.0, 0.0, 3.0], 'uint5': [0, 1, 17, 31], 'int8': [-128, -1, 0, 127], 'float16': [0.5, -2.0, 1024.0]}
+FA_HOWS = ['ctor', 'ctor_dtypeobj', 'copycopy', 'slice', 'astype', 'tolist', 'extend_empty', 'add0']        # (copy.deepcopy / pickle of an Array are refused by the library: a Dtype cannot be reconstructed)
+def gen_from_array(rng):
+    d = rng.choice(sorted(FA_DTYPES)); pool = FA_DTYPES[d]
+    st = {'op': 'from_array', 'dtype': d, 'vals': [rng.choice(pool) for _ in range(rng.choice([0, 1, 2, 3, 5, 9]))], 'how': rng.choice(FA_HOWS), 'use': []}
+    for _ in range(rng.randrange(2, 7)):
+        a = {'on': rng.choice(['a', 'b']), 'do': rng.choice(['append', 'setitem', 'pop', 'reverse', 'extend', 'insert', 'delitem', 'again', 'look', 'setdtype'])}
+        a['v'] = [rng.choice(pool), rng.choice(pool)]; a['i'] = rng.choice([0, -1])
+        st['use'].append(a)
+    return st
+
+# ---------------- calls that have nothing to do with the options (printing, representations, copies, queries) ----------------
+ARRAY_DTYPES = {'uint8': [1, 2, 250], 'int16': [-1, 2, 300], 'uint5': [1, 31, 0], 'float16': [0.5, 1.5, -2.0], 'float32': [0.5, 1e10], 'float64': [0.1], 'bfloat': [1.0, -3.0], 'e4m3mxfp': [0.5, 7e7, -1.0],
+                'e5m2mxfp': [0.5, 1e30], 'e2m1mxfp': [0.5, 6.0], 'e3m2mxfp': [1.0, 28.0], 'p4binary': [0.5, 100.0], 'p3binary': [1.0], 'hex4': ['a5b1', '0000'], 'bin3': ['101', '000', '111'],
+                'bool': [True, False, True], 'bytes2': [b'ab', b'cd'], 'uintle16': [1, 513], 'intbe24': [-2, 70000], 'e8m0mxfp': [1.0, 4.0]}
+BITS_CALLS = ['pp', 'pp', 'pp', 'repr', 'str', 'copy', 'copycopy', 'deepcopy', 'hash', 'eq', 'tobytes', 'tofile', 'len', 'iter', 'unpack', 'findall', 'cut', 'bytes', 'bool', 'tobitarray', 'pickle', 'format', 'props',
+              'find_arg', 'rfind_arg', 'findall_arg', 'split_arg', 'replace_arg', 'readto_arg', 'startswith', 'count', 'read', 'readlist', 'ror', 'slice']       # *_arg: with an explicit bytealigned argument (it is an argument, not a setting)
+ARRAY_CALLS = ['pp', 'pp', 'pp', 'pp', 'repr', 'str', 'copycopy', 'deepcopy', 'tolist', 'tobytes', 'tofile', 'eq', 'equals', 'len', 'iter', 'getitem', 'slice', 'astype', 'add1', 'neg', 'count', 'byteswap', 'reverse',
+               'attrs', 'fromarray', 'pickle']
+DTYPE_CALLS = ['repr', 'str', 'eq', 'hash', 'attrs', 'build_parse']
+PP_FMTS = [None, None, 'bin', 'hex', 'oct', 'bytes', 'bin, hex', 'hex, bin', 'uint8', 'int16', 'float16', 'float32', 'uint8, hex', 'bits', 'bin8', 'e4m3mxfp', 'bfloat', 'bool', 'uint5, bin',
+           'abc', 'uint', 'float', 'hex, oct, bin', 'ue', 'uint8, float64', 'bytes, bin']          # (the last ones are refused, for most objects: a refused call has to leave the options alone as well)
+
+def gen_purecall(rng, obj=None, call=None, **forced):
+    r = rng.random()
+    if obj is None: obj = 'Array' if r < 0.45 else rng.choice(CLASSES) if r < 0.9 else 'Dtype' if r < 0.97 else 'options'
+    if obj == 'Array':
+        d = rng.choice(sorted(ARRAY_DTYPES))
+        st = {'op': 'purecall', 'obj': 'Array', 'dtype': d, 'trailing': rng.choice(['', '', '1', '101']), 'call': call or rng.choice(ARRAY_CALLS)}
+    elif obj in CLASSES:
+        st = {'op': 'purecall', 'obj': obj, 'bits': rand_bits(rng, rng.choice([0, 1, 8, 12, 16, 32, 40, 64, 100, 200])), 'call': call or rng.choice(BITS_CALLS)}
+    elif obj == 'Dtype':
+        st = {'op': 'purecall', 'obj': 'Dtype', 'd': rng.choice(['uint8', 'int:7', 'float32', 'e4m3mxfp', 'e5m2mxfp', 'hex4', 'bits', 'bool', 'uintle16', 'ue', 'bfloat']), 'call': call or rng.choice(DTYPE_CALLS)}
+    else:
+        st = {'op': 'purecall', 'obj': 'options', 'call': call or rng.choice(['repr', 'read', 'dir'])}
+    if st['call'] == 'pp':
+        st.update(fmt=rng.choice(PP_FMTS), width=rng.choice([None, None, 40, 80, 10, 200, 0, -5]), show_offset=rng.choice([None, True, False]), sep=rng.choice([None, None, '_', '']))
+    if st['call'].endswith('_arg'): st['ba'] = rng.random() < 0.5
+    st.update(forced)
+    return st
+
+def gen_purecall_sweep(rng):
+    """the calls most likely to fiddle with a setting, each at least once: printing and representations of every kind of object (accepted and refused), searches with an explicit bytealigned argument"""
+    out = []
+    for obj in CLASSES + ['Array']:
+        out.append(gen_purecall(rng, obj, 'pp', fmt=rng.choice([None, 'bin', 'hex', 'bin, hex', 'uint8', 'float16'])))
+        out.append(gen_purecall(rng, obj, 'pp', fmt=rng.choice(['abc', 'uint', 'hex, oct, bin', 'ue'])))
+        out.append(gen_purecall(rng, obj, 'repr'))
+        out.append(gen_purecall(rng, obj, 'str'))
+    for call in [c for c in BITS_CALLS if c.endswith('_arg')]:
+        for ba in (True, False):
+            out.append(gen_purecall(rng, rng.choice(CLASSES), call, ba=ba, bits=rand_bits(rng, rng.choice([16, 32, 40, 64]))))
+    for call in ('tolist', 'astype', 'add1', 'eq', 'copycopy', 'getitem'): out.append(gen_purecall(rng, 'Array', call))
+    for call in ('copy', 'copycopy', 'unpack', 'read', 'slice', 'findall', 'tobytes', 'eq'): out.append(gen_purecall(rng, rng.choice(CLASSES), call))
+    out += [gen_purecall(rng, 'Dtype'), gen_purecall(rng, 'options')]
+    rng.shuffle(out)
+    return out
+
+# ---------------- constructions whose outcome is fixed by the option values (a plain-Python expectation for each) ----------------
+OPTPROBES = ['pack_order', 'index0', 'slice_head', 'ue_token', 'e5m2_huge', 'e4m3_huge', 'find_unaligned', 'read_head', 'append_side', 'unpack_order', 'dtype_huge', 'array_huge', 'kw_huge']
+def gen_optprobe(rng):
+    return {'op': 'optprobe', 'what': rng.choice(OPTPROBES), 'h': format(rng.randrange(1, 1 << 16), '04x'), 'b': rand_bits(rng, rng.choice([3, 5, 9]), 'rand'), 'v': rng.randrange(1, 5000),
+            'f': rng.choice([1e30, 3e38, 7e7, 1e12, 123456789.0]), 'route': rng.choice(['token', 'kw', 'pack', 'build', 'array', 'setattr'])}
+
+def gen_purity_history(rng, tier):
+    """option configurations in turn (never touched by the program in between): unrelated calls, constructions from earlier objects, and after each of them constructions that follow the options"""
+    steps = []
+    configs = [(l, b, m, nc) for l in (False, True) for b in (False, True) for m in (False, True) for nc in (False, True)]
+    rng.shuffle(configs)
+    if tier == 'quick': configs = [(True, True, True, False), (True, False, False, False), (False, True, False, True), (False, False, True, False)] + configs[:2]
+    per = 9 if tier == 'quick' else 40
+    for l, b, m, nc in configs:
+        steps += [{'op': 'set', 'opt': 'lsb0', 'v': l}, {'op': 'set', 'opt': 'bytealigned', 'v': b}, {'op': 'set', 'opt': 'mxfp_overflow', 'v': m}, {'op': 'set', 'opt': 'no_color', 'v': nc}]
+        for pc in gen_purecall_sweep(rng): steps += [pc, gen_optprobe(rng)]
+        if (l, b, m, nc) == configs[0] or tier != 'quick': steps += gen_from_obj_sweep(rng)
+        for _ in range(per):
+            r = rng.random()
+            if r < 0.5: steps += [gen_purecall(rng), gen_optprobe(rng)]
+            elif r < 0.82: steps += [gen_from_obj(rng), gen_optprobe(rng)]
+            elif r < 0.93: steps += [gen_from_array(rng), gen_optprobe(rng)]
+            else: steps += [gen_optprobe(rng)]
+    steps += [{'op': 'set', 'opt': 'lsb0', 'v': False}, {'op': 'set', 'opt': 'bytealigned', 'v': False}, {'op': 'set', 'opt': 'mxfp_overflow', 'v': False}, {'op': 'set', 'opt': 'no_color', 'v': False}]
+    steps += gen_from_obj_sweep(rng) + [gen_optprobe(rng) for _ in range(5)]
+    return {'op': 'history', 'steps': steps}
+
 def gen_cases(rng, tier):
     H = 2 if tier == 'quick' else 10
     for h in range(H):
@@ -104,7 +237,12 @@ def gen_cases(rng, tier):
             elif r < 0.9875: steps.append({'op': 'dtype_flush', 'base': rng.choice(['uint', 'int', 'bits', 'bin']), 'k': 300})       # more distinct Dtypes than any cache holds
             elif r < 0.992: steps.append({'op': 'array_again', 'd': rng.choice(['uint8', 'int16', 'float32', 'hex4', 'uint8'])})   # Arrays of one dtype made before and after other calls
             elif r < 0.995: steps.append({'op': 'dtype_from_dtype', 'd': rng.choice(['uint8', 'int16', 'float32', 'uint']), 'scale': rng.choice([None, 4, 0.5]), 'length': rng.choice([None, 8])})
-            else: steps.append({'op': 'find', 'bits': rand_bits(rng, 24), 'pat': rand_bits(rng, 8)})
+            elif r < 0.9965: steps.append({'op': 'find', 'bits': rand_bits(rng, 24), 'pat': rand_bits(rng, 8)})
+            elif r < 0.9985: steps.append(gen_purecall(rng))
+            else: steps.append(gen_from_obj(rng))
+            if i % 41 == 7: steps += [gen_purecall(rng), gen_optprobe(rng)]          # unrelated calls inside the long histories, whatever options are in force there
+            if i % 53 == 11: steps += [gen_from_obj(rng), gen_optprobe(rng)]
+            if i % 97 == 13: steps += [gen_from_array(rng)]
         if h == 0:
             # first use of every lazily initialised table under the NON-default option values, then the default ones again
             pre = [{'op': 'set', 'opt': 'mxfp_overflow', 'v': True}, {'op': 'set', 'opt': 'lsb0', 'v': True}, {'op': 'set', 'opt': 'bytealigned', 'v': True},
@@ -116,6 +254,8 @@ def gen_cases(rng, tier):
                    {'op': 'str', 's': 'e4m3mxfp=1000.0', 'cls': 'Bits', 'mutate': False}, {'op': 'find', 'bits': '000000001111000011110000', 'pat': '11110000'}]
             steps = pre + steps
         yield {'op': 'history', 'steps': steps}
+    for _ in range(1 if tier == 'quick' else 4):
+        yield gen_purity_history(rng, tier)
 
 def kind(c): return 'history'
 
@@ -124,6 +264,10 @@ def do_call(st):
     import bitstring
     from bitstring import Bits, Dtype, pack
     op = st['op']
+    if op == 'from_obj': return do_from_obj(st)
+    if op == 'from_array': return do_from_array(st)
+    if op == 'purecall': return do_purecall(st)
+    if op == 'optprobe': return do_optprobe(st)
     if op == 'str':
         o = cls_of(st['cls'])(st['s'])
         r = [type(o).__name__, o.bin]
@@ -218,17 +362,456 @@ def do_call(st):
             o = BitArray(); setattr(o, tok.replace(':', ''), v)
         return o.bin
 
+# ---- runner of the three added step kinds ----
+def make_src(st):
+    import bitstring
+    from bitstring import Bits
+    S = cls_named(st['src_cls']); B = st['bits']; route = st['route']
+    if route == 'read' and not is_stream(st['src_cls']): route = 'bin'
+    if st['src_cls'] in SUBCLASSES or route in ('ctor', 'add', 'read'):
+        if route == 'auto': return S('0b' + B) if B else S()
+        if route == 'ctor': return S(S(bin=B))
+        if route == 'add': return S(bin=B[:len(B) // 2]) + Bits(bin=B[len(B) // 2:])
+        if route == 'read':
+            big = S(bin='101' + B + '01'); big.pos = 3
+            return big.read(len(B))
+        return S(bin=B)
+    return build(st['src_cls'], B, route)
+
+def do_from_obj(st):
+    import bitstring, copy
+    from bitstring import Bits, pack
+    D = cls_named(st['dst_cls'])
+    src = make_src(st)
+    box = {'new': None}
+    snaps = []
+    def snap(tag, extra=None):
+        new = box['new']
+        snaps.append([tag, src.bin, getattr(src, 'pos', None), None if new is None else new.bin, None if new is None else getattr(new, 'pos', None), extra])
+    if hasattr(src, 'pos'):
+        sp = min(st['src_pos'], len(src))
+        if st['seek'] == 'read': src.read(sp)
+        else: src.pos = sp
+    snap('start', type(src).__name__)
+    k = st['ctor']
+    def construct():
+        if k == 'plain': return D(src)
+        if k == 'pos': return D(src, pos=st['p'])
+        if k == 'length': return D(src, length=st['length'])
+        if k == 'offset': return D(src, offset=st['offset'])
+        if k == 'lenoff': return D(src, length=st['length'], offset=st['offset'])
+        if k == 'bits_kw': return D(bits=src)
+        if k == 'bits_kw_pos': return D(bits=src, pos=st['p'])
+        if k == 'bits_kw_len': return D(bits=src, length=st['length'])
+        if k == 'copy': return src.copy()
+        if k == 'copycopy': return copy.copy(src)
+        if k == 'slice': return src[:]
+        if k == 'add_empty': return D() + src
+        if k == 'radd_empty': return src + D()
+        if k == 'join': return D().join([src])
+        if k == 'pack': return pack('bits', src)
+        if k in ('append_to_empty', 'iadd_to_empty', 'setslice'):
+            o = D()
+            if not hasattr(o, 'append'): return D(src)
+            if k == 'append_to_empty': o.append(src)
+            elif k == 'iadd_to_empty': o += src
+            else: o[:] = src
+            return o
+        raise AssertionError(k)
+    r = attempt(construct)
+    if r[0] == 'ok':
+        box['new'] = r[1]; snap('made', type(r[1]).__name__)
+        if k in ('length', 'offset', 'lenoff'): box['new'] = None       # (refused today; were it accepted, the window would be checked and the object dropped)
+    else: snap('refused', r[1])
+    for a in st['use']:
+        o = src if a['on'] == 'src' else box['new']
+        do = a['do']; extra = None
+        if o is None: snap('skip'); continue
+        if do == 'read':
+            if hasattr(o, 'pos'):
+                kk = min(a['k'], len(o) - o.pos); extra = o.read(kk).bin
+        elif do == 'setpos':
+            if hasattr(o, 'pos'): o.pos = min(a['k'], len(o))
+        elif do in ('append', 'prepend', 'invert', 'clear', 'delhead', 'setall', 'reverse', 'iadd'):
+            if isinstance(o, bitstring.BitArray):
+                if do == 'append': o.append(Bits(bin=a['bits']))
+                elif do == 'prepend': o.prepend(Bits(bin=a['bits']))
+                elif do == 'iadd': o += Bits(bin=a['bits'])
+                elif do == 'invert': o.invert() if len(o) else None
+                elif do == 'clear': o.clear()
+                elif do == 'delhead': del o[:a['k']]
+                elif do == 'setall': o.set(1) if len(o) else None
+                elif do == 'reverse': o.reverse()
+        elif do == 'again':
+            t = attempt(lambda: D(src)); extra = [t[0], t[1].bin, getattr(t[1], 'pos', None)] if t[0] == 'ok' else list(t)
+        elif do == 'rebuild': extra = make_src(st).bin
+        elif do == 'chain':
+            if box['new'] is not None: box['new'] = type(box['new'])(box['new'])
+        snap(do + ':' + a['on'], extra)
+    return snaps
+
+def model_from_obj(st, snaps, o):
+    """the same step on (str, int) pairs, started from the observed source: -> None or what differs"""
+    lsb0 = o['lsb0']
+    if not snaps or snaps[0][0] != 'start': return f"no start snapshot: {str(snaps)[:100]}"
+    sb, sp = snaps[0][1], snaps[0][2]
+    B0 = sb
+    srcn, dstn = st['src_cls'], st['dst_cls']
+    if (sp is not None) != is_stream(srcn): return f"source of class {srcn} has pos {sp}"
+    k = st['ctor']
+    # class of the object made
+    newn = dstn
+    if k in ('copy', 'copycopy', 'slice', 'radd_empty'): newn = srcn
+    if k == 'pack': newn = 'BitStream'
+    nb, npos = sb, (0 if is_stream(newn) else None)
+    refused = None
+    if k in ('pos', 'bits_kw_pos') and is_stream(newn):
+        if st['p'] > len(sb): refused = 'bad pos'
+        else: npos = st['p']
+    if k == 'bits_kw_len' and st['length'] != len(sb): refused = 'length does not match'
+    if k in ('append_to_empty', 'iadd_to_empty') and is_stream(newn) and is_mutable(newn): npos = len(sb)          # append and += leave a BitStream at its end (C06)
+    made = snaps[1]
+    if k in ('length', 'offset', 'lenoff'):
+        # an explicit window on a bitstring initialiser: refused (or, if accepted, exactly that window); the source is untouched either way
+        if made[0] == 'made' and not lsb0:
+            off = st['offset'] if k != 'length' else 0
+            ln = st['length'] if k != 'offset' else len(sb) - off
+            if off + ln > len(sb) or ln < 0: return f"a window [{off}, {off + ln}) outside the {len(sb)} source bits was accepted"
+            if made[3] != sb[off:off + ln]: return f"{dstn}(source, window offset {off} length {ln}) holds {made[3]!r}, the source holds {sb!r}"
+        have_new = False
+    elif refused:
+        if made[0] != 'refused': return f"{k} with {refused} was accepted: {made}"
+        have_new = False
+    else:
+        if made[0] != 'made': return f"construction '{k}' of a {dstn} from a {srcn} holding {sb!r} raised {made[5]}"
+        have_new = True
+    cur = {'src': [sb, sp], 'new': [nb, npos] if have_new else None}
+    def expect(i, extra_ok=True, extra=None):
+        t = snaps[i]
+        want = [cur['src'][0], cur['src'][1], None if (cur['new'] is None or (i == 1 and not have_new)) else cur['new'][0], None if (cur['new'] is None or (i == 1 and not have_new)) else cur['new'][1]]
+        got = t[1:5]
+        if i == 1 and made[0] == 'made' and not have_new: got = got[:2] + [None, None]
+        if got != want:
+            return (f"after step {i} ({t[0]}) of source={srcn}({B0!r}, pos={sp}) -> {k} -> {newn}: (source bits, source pos, new bits, new pos) = {got}, "
+                    f"the reference on plain strings gives {want}")
+        return None
+    m = expect(1)
+    if m: return m
+    base = lambda nm: nm[3:] if nm.startswith('Sub') else nm          # (whether a copy / slice / sum of a user subclass is of the subclass is not this property's business)
+    if have_new and base(made[5]) != base(newn):
+        return f"construction '{k}' of a {dstn} from a {srcn} returned a {made[5]}, expected a {newn}"
+    names = {'src': srcn, 'new': newn}
+    for i, a in enumerate(st['use'], start=2):
+        if i >= len(snaps): return f"missing snapshot {i}"
+        t = snaps[i]; who = a['on']; do = a['do']
+        obj = cur[who]
+        if obj is None:
+            if t[0] != 'skip': return f"snapshot {i}: expected a skipped action, got {t[0]}"
+            continue
+        bits, pos = obj; n = len(bits); cn = names[who]
+        if do == 'read' and pos is not None:
+            kk = min(a['k'], n - pos)
+            want = bits[n - pos - kk:n - pos] if lsb0 else bits[pos:pos + kk]
+            if t[5] != want: return f"step {i}: read({kk}) on the {who} object {cn}({bits!r}, pos={pos}) of source={srcn}({B0!r}) -> {k} -> {newn} returned {t[5]!r}, reference gives {want!r}"
+            obj[1] = pos + kk
+        elif do == 'setpos' and pos is not None: obj[1] = min(a['k'], n)
+        elif do in ('append', 'prepend', 'invert', 'clear', 'delhead', 'setall', 'reverse', 'iadd') and is_mutable(cn):
+            x = a.get('bits', '')
+            if do in ('append', 'iadd'): nb2 = x + bits if lsb0 else bits + x
+            elif do == 'prepend': nb2 = bits + x if lsb0 else x + bits
+            elif do == 'invert': nb2 = ''.join('1' if ch == '0' else '0' for ch in bits)
+            elif do == 'clear': nb2 = ''
+            elif do == 'delhead': nb2 = bits[:max(n - a['k'], 0)] if lsb0 else bits[a['k']:]
+            elif do == 'setall': nb2 = '1' * n
+            elif do == 'reverse': nb2 = bits[::-1]
+            obj[0] = nb2
+            if pos is not None:         # the documented moves of a BitStream's position (C06): end after append / +=, 0 after prepend, clear and a deletion that changes the length
+                if do in ('append', 'iadd'): obj[1] = len(nb2)
+                elif do in ('prepend', 'clear'): obj[1] = 0
+                elif do == 'delhead' and len(nb2) != n: obj[1] = 0
+        elif do == 'again':
+            want = ['ok', cur['src'][0], 0 if is_stream(dstn) else None]
+            if t[5] != want: return f"step {i}: {dstn}(source) made again from source={srcn}({cur['src'][0]!r}, pos={cur['src'][1]}) gave {t[5]}, reference gives {want}"
+        elif do == 'rebuild':
+            if t[5] != B0: return f"step {i}: building the source again by the same route '{st['route']}' gives {t[5]!r}, the first time it gave {B0!r} (an object derived from it was changed in between)"
+        elif do == 'chain' and cur['new'] is not None:
+            cur['new'] = [cur['new'][0], 0 if is_stream(newn) else None]
+        m = expect(i)
+        if m: return m
+    return None
+
+def do_from_array(st):
+    import copy
+    from bitstring import Array
+    canon = lambda L: [x.hex() if isinstance(x, float) else x for x in L]
+    d = st['dtype']
+    a = Array(d, st['vals'])
+    how = st['how']
+    def make():
+        if how == 'ctor': return Array(d, a)
+        if how == 'ctor_dtypeobj': return Array(a.dtype, a)
+        if how == 'copycopy': return copy.copy(a)
+        if how == 'slice': return a[:]
+        if how == 'astype': return a.astype(d)
+        if how == 'tolist': return Array(d, a.tolist())
+        if how == 'extend_empty':
+            b = Array(d); b.extend(a); return b
+        if how == 'add0': return a + 0
+        raise AssertionError(how)
+    box = {'a': a, 'b': make()}
+    snaps = []
+    def snap(tag, extra=None): snaps.append([tag, canon(box['a'].tolist()), str(box['a'].dtype), canon(box['b'].tolist()), str(box['b'].dtype), extra])
+    snap('made', box['b'] is a)
+    frozen = set()           # an Array whose dtype was reassigned is only looked at from then on (the values of the program are not values of the new dtype)
+    for act in st['use']:
+        o = box[act['on']]; do = act['do']; extra = None
+        if ('a' if do == 'again' else act['on']) in frozen: snap('skip'); continue
+        if do == 'setdtype': frozen.add(act['on'])
+        if do == 'append': o.append(act['v'][0])
+        elif do == 'setitem':
+            if len(o): o[act['i']] = act['v'][0]
+        elif do == 'pop':
+            if len(o): extra = canon([o.pop()])
+        elif do == 'reverse': o.reverse()
+        elif do == 'extend': o.extend(act['v'])
+        elif do == 'insert': o.insert(0, act['v'][1])
+        elif do == 'delitem':
+            if len(o): del o[act['i']]
+        elif do == 'again': extra = canon(Array(d, box['a']).tolist())
+        elif do == 'setdtype': o.dtype = {'uint8': 'int8', 'int8': 'uint8', 'int16': 'uint16', 'float32': 'uint32', 'uint5': 'int5', 'float16': 'uint16'}[d]
+        snap(do + ':' + act['on'], extra)
+    return snaps
+
+def model_from_array(st, snaps):
+    """the same program on plain lists: -> None or what differs (after `setdtype` the values of that Array are no longer followed, those of the other one are)"""
+    canon = lambda L: [x.hex() if isinstance(x, float) else x for x in L]
+    vals = [float(v) if st['dtype'].startswith('float') else v for v in st['vals']]
+    cur = {'a': list(vals), 'b': list(vals)}
+    known = {'a': True, 'b': True}
+    def check(i):
+        t = snaps[i]
+        for who, idx in (('a', 1), ('b', 3)):
+            if known[who] and t[idx] != canon(cur[who]):
+                return (f"after step {i} ({t[0]}) of Array({st['dtype']!r}, {st['vals']}) -> {st['how']}: Array {who} holds {t[idx]}, the same program on plain lists gives {canon(cur[who])} "
+                        f"(a = the source, b = the Array made from it)")
+        return None
+    if not snaps: return 'no snapshots'
+    if snaps[0][5] is True and st['how'] not in (): pass
+    m = check(0)
+    if m: return m
+    for i, act in enumerate(st['use'], start=1):
+        if i >= len(snaps): return f"missing snapshot {i}"
+        L = cur[act['on']]; do = act['do']
+        if not known['a' if do == 'again' else act['on']]:
+            if snaps[i][0] != 'skip': return f"snapshot {i}: expected a skipped action, got {snaps[i][0]}"
+            m = check(i)
+            if m: return m
+            continue
+        f = (lambda v: float(v)) if st['dtype'].startswith('float') else (lambda v: v)
+        if do == 'append': L.append(f(act['v'][0]))
+        elif do == 'setitem':
+            if L: L[act['i']] = f(act['v'][0])
+        elif do == 'pop':
+            if L:
+                v = L.pop()
+                if known[act['on']] and snaps[i][5] != canon([v]): return f"step {i}: pop() on Array {act['on']} returned {snaps[i][5]}, plain lists give {canon([v])}"
+        elif do == 'reverse': L.reverse()
+        elif do == 'extend': L.extend(f(v) for v in act['v'])
+        elif do == 'insert': L.insert(0, f(act['v'][1]))
+        elif do == 'delitem':
+            if L: del L[act['i']]
+        elif do == 'again':
+            if known['a'] and snaps[i][5] != canon(cur['a']): return f"step {i}: an Array made from the source again holds {snaps[i][5]}, the source holds {canon(cur['a'])}"
+        elif do == 'setdtype': known[act['on']] = False
+        m = check(i)
+        if m: return m
+    return None
+
+def _array(st):
+    from bitstring import Array
+    a = Array(st['dtype'], ARRAY_DTYPES[st['dtype']])
+    if st['trailing']: a.data.append('0b' + st['trailing'])
+    return a
+
+def do_purecall(st):
+    import bitstring, io, copy, pickle
+    from bitstring import Bits, Array, Dtype
+    call = st['call']
+    canon = lambda v: v if isinstance(v, (str, int, bool, type(None))) else (v.hex() if isinstance(v, (bytes, float)) else repr(v))
+    ppkw = lambda: {k: st[k] for k in ('width', 'show_offset', 'sep') if st.get(k) is not None and not (k == 'sep' and st['obj'] == 'Array')}
+    if st['obj'] == 'options':
+        o = bitstring.options
+        if call == 'repr': return [repr(o), str(o)]
+        if call == 'read': return [canon(getattr(o, n)) for n in ('lsb0', 'bytealigned', 'mxfp_overflow', 'no_color')]
+        return [n for n in dir(o) if not n.startswith('_')]
+    if st['obj'] == 'Dtype':
+        d = Dtype(st['d'])
+        if call == 'repr': return repr(d)
+        if call == 'str': return str(d)
+        if call == 'eq': return [d == Dtype(st['d']), d == st['d'], d != Dtype('uint3')]
+        if call == 'hash': return hash(d) == hash(Dtype(st['d']))
+        if call == 'attrs': return [canon(getattr(d, n)) for n in ('name', 'length', 'bitlength', 'bits_per_item', 'is_signed', 'scale', 'variable_length')] + [d.return_type.__name__]
+        L = d.bitlength or 8
+        return [canon(d.parse(Bits(uint=5, length=L))) if d.bitlength else None]
+    if st['obj'] == 'Array':
+        a = _array(st)
+        if call == 'pp':
+            f = io.StringIO(); a.pp(*([] if st['fmt'] is None else [st['fmt']]), stream=f, **ppkw()); return f.getvalue()
+        if call == 'repr': return repr(a)
+        if call == 'str': return str(a)
+        if call == 'copycopy': return copy.copy(a).tobytes().hex()
+        if call == 'deepcopy': return copy.deepcopy(a).tobytes().hex()
+        if call == 'pickle': return pickle.loads(pickle.dumps(a)).tobytes().hex()
+        if call == 'tolist': return [canon(x) for x in a.tolist()]
+        if call == 'tobytes': return a.tobytes().hex()
+        if call == 'tofile':
+            f = io.BytesIO(); a.tofile(f); return f.getvalue().hex()
+        if call == 'eq': return [canon(x) for x in (a == a).tolist()]
+        if call == 'equals': return a.equals(_array(st))
+        if call == 'len': return len(a)
+        if call == 'iter': return [canon(x) for x in a]
+        if call == 'getitem': return canon(a[0])
+        if call == 'slice': return [canon(x) for x in a[::-1].tolist()]
+        if call == 'astype': return [canon(x) for x in a.astype('float32').tolist()]
+        if call == 'add1': return [canon(x) for x in (a + 1).tolist()]
+        if call == 'neg': return [canon(x) for x in (-a).tolist()]
+        if call == 'count': return a.count(ARRAY_DTYPES[st['dtype']][0])
+        if call == 'byteswap': a.byteswap(); return a.tobytes().hex()
+        if call == 'reverse': a.reverse(); return a.tobytes().hex()
+        if call == 'attrs': return [str(a.dtype), a.itemsize, a.trailing_bits.bin, len(a.data)]
+        if call == 'fromarray': return Array(a.dtype, a).tobytes().hex()
+        raise AssertionError(call)
+    C = cls_of(st['obj']); b = C(bin=st['bits'])
+    if hasattr(b, 'pos'): b.pos = len(b) // 2
+    if call == 'pp':
+        f = io.StringIO(); b.pp(*([] if st['fmt'] is None else [st['fmt']]), stream=f, **ppkw()); return [f.getvalue(), getattr(b, 'pos', None)]
+    if call == 'repr': return repr(b)
+    if call == 'str': return str(b)
+    if call == 'format': return format(b)
+    if call == 'copy': return b.copy().bin
+    if call == 'copycopy': return copy.copy(b).bin
+    if call == 'deepcopy': return copy.deepcopy(b).bin
+    if call == 'pickle': return pickle.loads(pickle.dumps(b)).bin
+    if call == 'hash': return True if isinstance(b, bitstring.BitArray) else hash(b) == hash(Bits(bin=st['bits']))
+    if call == 'eq': return [b == Bits(bin=st['bits']), b == C(bin=st['bits']), b != Bits(bin=st['bits'] + '1')]
+    if call == 'tobytes': return b.tobytes().hex()
+    if call == 'bytes': return bytes(b).hex()
+    if call == 'tofile':
+        f = io.BytesIO(); b.tofile(f); return f.getvalue().hex()
+    if call == 'len': return len(b)
+    if call == 'bool': return bool(b)
+    if call == 'iter': return ''.join('1' if x else '0' for x in b)
+    if call == 'unpack': return [canon(x) for x in b.unpack('bin')]
+    if call == 'findall': return list(b.findall('0b1'))[:50]
+    if call == 'cut': return [x.bin for x in b.cut(8)]
+    if call == 'tobitarray': return b.tobitarray().to01()
+    if call == 'props': return [len(b), b.bin, b.hex if len(b) % 4 == 0 else None, format(b.uint, 'x') if len(b) else None]
+    P = Bits(bin='1' if len(b) < 16 else st['bits'][8:16])
+    if call == 'find_arg': return list(b.find(P, bytealigned=st['ba']))
+    if call == 'rfind_arg': return list(b.rfind(P, bytealigned=st['ba']))
+    if call == 'findall_arg': return list(b.findall(P, bytealigned=st['ba']))[:50]
+    if call == 'split_arg': return [x.bin for x in b.split(P, bytealigned=st['ba'])][:50]
+    if call == 'replace_arg':
+        m = bitstring.BitArray(b); n_ = m.replace(P, '0b0', bytealigned=st['ba']); return [n_, m.bin]
+    if call == 'readto_arg':
+        t = bitstring.ConstBitStream(b); return t.readto(P, bytealigned=st['ba']).bin
+    if call == 'startswith': return [b.startswith(P), b.endswith(P), P in b]
+    if call == 'count': return [b.count(1), b.all(1), b.any(0)]
+    if call == 'read':
+        t = bitstring.ConstBitStream(b); return [t.read('uint:3'), t.peek('bin:2'), t.pos]
+    if call == 'readlist':
+        t = bitstring.ConstBitStream(b); return [canon(x) for x in t.readlist('uint:3, bin:2, hex:4, bits')]
+    if call == 'ror':
+        m = bitstring.BitArray(b); m.ror(3); m.rol(1); return m.bin
+    if call == 'slice': return [b[2:7].bin, b[::-1].bin, b[-3:].bin]
+    raise AssertionError(call)
+
+def ref_ue(v):
+    w = format(v + 1, 'b'); return '0' * (len(w) - 1) + w
+
+def do_optprobe(st):
+    import bitstring
+    from bitstring import Bits, BitArray, ConstBitStream, Array, Dtype, pack
+    w = st['what']; h, b, v, f, route = st['h'], st['b'], st['v'], st['f'], st['route']
+    if w == 'pack_order': return pack('hex, bin', h, b).bin
+    if w == 'index0': return Bits(bin=b)[0]
+    if w == 'slice_head': return Bits(bin=b)[0:2].bin
+    if w == 'ue_token': return Bits(f'ue={v}').bin
+    if w in ('e5m2_huge', 'e4m3_huge'):
+        name = w[:4] + 'mxfp'
+        if route == 'kw': return BitArray(**{name: f}).bin
+        if route == 'pack': return pack(name, f).bin
+        if route == 'build': return Dtype(name).build(f).bin
+        if route == 'array': return Array(name, [f]).data.bin
+        if route == 'setattr':
+            o = BitArray(); setattr(o, name, f); return o.bin
+        return Bits(f'{name}={f!r}').bin
+    if w == 'dtype_huge': return Dtype('e5m2mxfp').build(f).bin
+    if w == 'array_huge': return Array('e5m2mxfp', [f]).data.bin
+    if w == 'kw_huge': return Bits(e5m2mxfp=f).bin
+    if w == 'find_unaligned': return list(Bits(hex='0ff0' + h + '0ff0').find('0xff', 0, 16))        # the first sixteen bits read the same in both numberings; 0xff starts at bit 4 of them
+    if w == 'read_head': return ConstBitStream(bin=b).read(2).bin
+    if w == 'append_side':
+        o = BitArray(bin=b); o.append('0b10'); return o.bin
+    if w == 'unpack_order': return Bits(bin=b).unpack('bin:2, bin')
+    raise AssertionError(w)
+
+def model_optprobe(st, o):
+    """-> ('ok', value) | ('err', kinds): the outcome the option values in force prescribe (documentation: lsb0 numbers, reads, packs from the right; exp-Golomb codes are not available under lsb0;
+    bytealigned finds only at multiples of 8; mxfp_overflow: values beyond the largest finite one saturate, or overflow to infinity (e5m2) / NaN (e4m3))"""
+    w = st['what']; h, b, v, f = st['h'], st['b'], st['v'], st['f']
+    lsb0, ba, ovf = o['lsb0'], o['bytealigned'], o['mxfp_overflow']
+    hb = ''.join(format(int(ch, 16), '04b') for ch in h)
+    if w == 'pack_order': return ('ok', b + hb if lsb0 else hb + b)
+    if w == 'index0': return ('ok', b[-1] == '1' if lsb0 else b[0] == '1')
+    if w == 'slice_head': return ('ok', b[-2:] if lsb0 else b[:2])
+    if w == 'ue_token': return ('err', {'BsError', 'ValueError'}) if lsb0 else ('ok', ref_ue(v))
+    if w in ('e5m2_huge', 'dtype_huge', 'kw_huge', 'array_huge'): return ('ok', '01111100' if ovf else '01111011')
+    if w == 'e4m3_huge': return ('ok', '11111111' if ovf else '01111110')
+    if w == 'find_unaligned': return ('ok', [] if ba else [4])
+    if w == 'read_head': return ('ok', b[-2:] if lsb0 else b[:2])
+    if w == 'append_side': return ('ok', '10' + b if lsb0 else b + '10')
+    if w == 'unpack_order': return ('ok', [b[-2:], b[:-2]] if lsb0 else [b[:2], b[2:]])
+    raise AssertionError(w)
+
 _KEEP = {}      # objects that survive from one call of a history to a later one (their use must not depend on what happened in between)
 
 def set_opts(o):
     import bitstring
     bitstring.options.lsb0 = o['lsb0']; bitstring.options.bytealigned = o['bytealigned']
     bitstring.options.mxfp_overflow = 'overflow' if o['mxfp_overflow'] else 'saturate'
+    if 'no_color' in o: bitstring.options.no_color = o['no_color']
+
+def read_opts(raw=None):
+    """the option values in force, in the form of the `opts` dictionaries"""
+    import bitstring
+    g = (lambda n: getattr(bitstring.options, n)) if raw is None else (lambda n: raw[n].fget(bitstring.options) if n in raw else getattr(bitstring.options, n))
+    return {'lsb0': g('lsb0'), 'bytealigned': g('bytealigned'), 'mxfp_overflow': {'saturate': False, 'overflow': True}.get(g('mxfp_overflow'), g('mxfp_overflow')), 'no_color': g('no_color')}
+
+def bound_methods():
+    """which functions the numbering-dependent attributes are bound to right now (what set_lsb0 swaps): names only"""
+    import bitstring
+    out = []
+    for C in (bitstring.Bits, bitstring.BitArray, bitstring.bitstore.BitStore):
+        for a in ('_find', '_rfind', '_findall', '_ror', '_rol', '_append', '_prepend', '__setitem__', '__delitem__', 'getindex', 'getslice', 'getslice_withstep', 'invert'):
+            f = vars(C).get(a)
+            if f is not None: out.append(f"{C.__name__}.{a}={getattr(f, '__name__', '?')}")
+    return out
 
 def run_impl(c):
     import bitstring
+    no_color0 = bitstring.options.no_color
+    try:
+        return run_impl_(c, no_color0)
+    finally:
+        bitstring.options.no_color = no_color0         # (reset_options() of the driver knows the other three)
+
+def run_impl_(c, no_color0):
+    import bitstring
     clear_caches()
-    opts = {'lsb0': False, 'bytealigned': False, 'mxfp_overflow': False}
+    opts = {'lsb0': False, 'bytealigned': False, 'mxfp_overflow': False, 'no_color': bool(no_color0)}
+    set_opts(opts)
+    binding = {False: bound_methods()}        # lsb0 value -> the method bindings seen when the program itself set that value
     warm, snaps = [], []
     diffs0 = []
     # log option reads during each call
@@ -244,9 +827,29 @@ def run_impl(c):
     try:
         for st in c['steps']:
             if st['op'] == 'set':
-                opts[st['opt']] = st['v']; set_opts(opts); warm.append(('ok', None)); snaps.append(dict(opts)); continue
-            warm.append(attempt(lambda: do_call(st))); snaps.append(dict(opts))
+                opts[st['opt']] = st['v']; set_opts(opts); warm.append(('ok', None)); snaps.append(dict(opts))
+                binding.setdefault(opts['lsb0'], bound_methods()); continue
+            warm.append(attempt(lambda: do_call(st), 20 if st['op'] in ('from_obj', 'purecall', 'from_array') else 5)); snaps.append(dict(opts))
             w = warm[-1]
+            # no call of a history (other than the program's own assignments to bitstring.options) may leave other option values, or other method bindings, behind
+            now = read_opts(saved)
+            if now != opts or (opts['lsb0'] in binding and bound_methods() != binding[opts['lsb0']]):
+                if len(diffs0) < 3:
+                    what = (f"the option values in force after the call are {now}, the program had set {opts} and did not touch them" if now != opts else
+                            f"the option values still read {now} but the numbering-dependent methods are bound differently than when the program set lsb0={opts['lsb0']}: "
+                            f"{sorted(set(bound_methods()) ^ set(binding[opts['lsb0']]))}")
+                    diffs0.append([len(warm) - 1, st, list(w), ['reference', what], dict(opts)])
+                set_opts(opts)           # put them back, so that each further report is about its own call
+            if st['op'] == 'from_obj' and len(diffs0) < 3:
+                m = model_from_obj(st, w[1], opts) if w[0] == 'ok' else f"the step raised {w[1]}"
+                if m: diffs0.append([len(warm) - 1, st, list(w), ['reference', m], dict(opts)])
+            if st['op'] == 'from_array' and len(diffs0) < 3:
+                m = model_from_array(st, w[1]) if w[0] == 'ok' else f"the step raised {w[1]}"
+                if m: diffs0.append([len(warm) - 1, st, list(w), ['reference', m], dict(opts)])
+            if st['op'] == 'optprobe' and len(diffs0) < 3:
+                e = model_optprobe(st, opts)
+                bad = (w[0] != 'err' or w[1] not in e[1]) if e[0] == 'err' else (w[0] != 'ok' or w[1] != e[1])
+                if bad: diffs0.append([len(warm) - 1, st, list(w), ['reference', f"under the option values the program set, the documented outcome is {e}"], dict(opts)])
             if st['op'] == 'str_radd' and w[0] == 'ok' and w[1][1] != w[1][2] and len(diffs0) < 3:
                 # the sum of a literal and an empty object holds the literal's bits; parsing the literal again after the sum was mutated must still give them
                 diffs0.append([len(warm) - 1, st, list(w), ['ok', [w[1][0], w[1][1], w[1][1]]], dict(opts)])
@@ -281,17 +884,20 @@ def run_impl(c):
 
 def replay(items):
     """run [index, step, options] items in the given order; -> [[index, result]]"""
+    import bitstring
     out = []
+    nc = bitstring.options.no_color
     for i, st, o in items:
         set_opts(o)
-        try: out.append([i, list(attempt(lambda: do_call(st)))])
-        finally: reset_options()
+        try: out.append([i, list(attempt(lambda: do_call(st), 20))])
+        finally: reset_options(); bitstring.options.no_color = nc
     return out
 
 def oracle(c, obs):
     if obs[0] != 'ok': return f"history raised {obs}"
     if obs[1]['diffs']:
         i, st, w, r, o = obs[1]['diffs'][0]
+        if r and r[0] == 'reference': return f"call #{i} {str(st)[:600]} under options {o}: {r[1]} (observed: {str(w)[:300]})"
         return f"call #{i} {st} under options {o}: warm interpreter gave {str(w)[:200]}, the same call on cold caches gives {str(r)[:200]}"
     return None
 
